@@ -232,10 +232,13 @@ func runC10(c *Ctx) {
 			default:
 				c.Check(efs[i].cap <= dfs[i].cap, "C10.B4-caps-agree", key, efs[i].pos, "encoder cap "+itoa(int(efs[i].cap))+" <= decoder cap "+itoa(int(dfs[i].cap)),
 					"encoder allows "+itoa(int(efs[i].cap))+" for "+efs[i].path+" but the decoder rejects above "+itoa(int(dfs[i].cap)))
+				// and the other way round: what decodes must re-encode, and the decoder allocates no more than the field cap
+				c.Check(dfs[i].cap <= efs[i].cap, "C10.B4-caps-agree", "field "+efs[i].path+" › decoder cap <= encoder cap", dfs[i].pos, "decoder cap "+itoa(int(dfs[i].cap))+" <= encoder cap "+itoa(int(efs[i].cap)),
+					"decoder accepts (and allocates) up to "+itoa(int(dfs[i].cap))+" for "+efs[i].path+" but the encoder refuses above "+itoa(int(efs[i].cap))+": a decoded message does not re-encode")
 			}
 		}
 	}
-	c.Floor("C10.B4-caps-agree", 4)
+	c.Floor("C10.B4-caps-agree", 8)
 
 	// ---- B3 arity ------------------------------------------------------------------------------------------
 	c10Arity(c, enc, dec)
